@@ -129,7 +129,10 @@ func third(o op) op { o.Locker = "third"; return o }
 
 func configs() []config {
 	var out []config
-	for _, n := range []int{1, 3, 4} {
+	// 2 witnesses: the smallest count that is 2 mod 3, where "more than two thirds" (both) and a BFT-style 2f+1
+	// (one) differ. (Added after a seeded change - the threshold written as 2*(n/3)+1 - escaped the counts 1, 3, 4,
+	// on which the two formulas agree.)
+	for _, n := range []int{1, 2, 3, 4} {
 		last := wit(n - 1)
 		// ---- lock: two users, two external transactions, the full report matrix on X
 		ev := []event{{}}
@@ -168,6 +171,9 @@ func configs() []config {
 			ev = append(ev, pair(rep(wit(0), "Z", false), rep(wit(1), "Z", false)), pair(rep(wit(0), "Z", true), rep(wit(1), "Z", true)))
 		}
 		out = append(out, config{Name: fmt.Sprintf("redeem/%dw", n), N: n, Mode: "redeem", Events: ev, Quick: n != 4})
+		if n == 2 {
+			continue // mixed and erc20 add nothing about the threshold
+		}
 
 		// ---- mixed: a lock and a redeem in flight together (shared supply counter, shared store object)
 		ev = []event{{}}
